@@ -150,6 +150,8 @@ var targets = []target{
 		Locals: []string{"taxAmount"}},
 	{Group: "Service", Mod: "service", Pkg: "keeper", Func: "Keeper.Slash", Lean: "Slash",
 		Locals: []string{"slashedAmt"}},
+	{Group: "TokenFee", Mod: "token", Pkg: "keeper", Func: "Keeper.EditToken", Lean: "EditToken",
+		Locals: []string{"issuedAmt", "precision", "token_MaxSupply", "token_Mintable", "token_Name"}, Guards: true, Conds: true},
 	{Group: "TokenFee", Mod: "token", Pkg: "keeper", Func: "Keeper.GetTokenMintFee", Lean: "GetTokenMintFee",
 		Locals: []string{"mintFee"}},
 	{Group: "TokenFee", Mod: "token", Pkg: "keeper", Func: "feeHandler", Lean: "feeHandler",
